@@ -557,6 +557,9 @@ class World(BaseWorld):
                 return None
             if kind == 'solve':
                 nsolve[0] += 1
+                if exc is None and (sr.calls != calls0 + 1 or not hasattr(P, 'minimize_result')):
+                    raise Violation('system_solve_returned_unsolved_object', site, {'root_finder_calls': sr.calls - calls0,
+                                                                                    'has_minimize_result': hasattr(P, 'minimize_result')}, step)
             if exc is not None and kind == 'create':
                 raise Violation('complete_system_rejected', site, '%s: %s' % (type(exc).__name__, str(exc)[:160]), step)
             if exc is not None:
